@@ -102,6 +102,7 @@ RULES = {
     'R5': 'float literals inside T::from(..) get one axiom each (lit == its decimal value); std::f64::consts::PI -> shim const PI',
     'R7': 'OPT.map(|v| { B })  ->  match OPT { Some(v) => Some({ B }), None => None }',
     'R8': 'Q.get(i) >= P.get(i) on Option<&T>  ->  *Q.get(i).unwrap() >= *P.get(i).unwrap() (equal when both are Some; the unwraps become obligations)',
+    'R9': 'in constructors: assert!(c, msg) -> if !(c) { ctor_reject(); }  (a constructor that panics has not accepted its arguments; ctor_reject() never returns)',
     'R6': 'Vec::last().copied() -> same call on a shim helper vec_last(&v) (contract: last element or None)',
 }
 
@@ -455,6 +456,9 @@ def process_file(em, path, report):
             for fh, fb in top_items(body):
                 ap = set()
                 fb2 = rewrite_body(fb, ap)
+                if not is_trait and re.search(r'\bfn (new\w*|with_\w+)\b', fh):
+                    fb2, k9 = re.subn(r'\bassert!\(([^,;]+), "[^"]*"\);', r'if !(\1) { ctor_reject(); }', fb2)
+                    if k9: ap.add('R9')
                 for pat in UNSUPPORTED:
                     if re.search(pat, fb2):
                         raise ExtractError('unsupported construct %s in %s::%s' % (pat, stem, fh.strip().split('(')[0]))
